@@ -1,11 +1,26 @@
 #!/usr/bin/env python3
 """Apply one seeded change (seeded/<name>/patch.diff) to /repo, run the quick (or given tier) check of its property, undo.
-Usage: tools/run_seeded.py seeded/<name> [--tier quick|thorough] [--prop Cxx]   -> prints CAUGHT / MISSED and the fingerprints."""
+Usage: tools/run_seeded.py seeded/<name> [--tier quick|thorough] [--prop Cxx] [--scratch]   -> prints CAUGHT / MISSED and the fingerprints.
+--scratch: instead of patching /repo, the change is applied to a throw-away copy of /repo's HEAD under /var/tmp (VERIF_REPO points there, the evidence goes
+to a throw-away directory); used while other checks are running against /repo itself."""
 import json, os, subprocess, sys
 ROOT = os.path.dirname(os.path.dirname(os.path.abspath(__file__)))
 d = os.path.abspath(sys.argv[1]); tier = sys.argv[sys.argv.index("--tier") + 1] if "--tier" in sys.argv else "quick"
 meta = json.load(open(os.path.join(d, "meta.json")))
 prop = sys.argv[sys.argv.index("--prop") + 1] if "--prop" in sys.argv else meta["property"]
+if "--scratch" in sys.argv:
+    import shutil, tempfile
+    tmp = tempfile.mkdtemp(prefix="mutrepo-", dir="/var/tmp")
+    try:
+        subprocess.run("git -C /repo archive HEAD | tar -x -C %s" % tmp, shell=True, check=True)
+        subprocess.run(["git", "apply", "--directory", tmp.lstrip("/"), "--unsafe-paths", os.path.join(d, "patch.diff")], cwd="/", check=True)
+        env = dict(os.environ); env.setdefault("VERIF_MAX_VIOLATIONS", "1"); env["VERIF_REPO"] = tmp; env["VERIF_EVIDENCE_DIR"] = os.path.join(tmp, "_evidence")
+        r = subprocess.run([sys.executable, os.path.join(ROOT, "verif.py"), "check", prop, "--tier", tier], stdout=subprocess.PIPE, stderr=subprocess.PIPE, text=True, env=env)
+    finally:
+        shutil.rmtree(tmp, ignore_errors=True)
+    fps = [l.strip()[len("fingerprint: "):] for l in r.stdout.splitlines() if l.strip().startswith("fingerprint:")]
+    print("%s %s %s exit=%d violations=%d %s" % ("CAUGHT" if r.returncode == 1 else ("MISSED" if r.returncode == 0 else "MACHINERY-ERROR"), os.path.basename(d), prop, r.returncode, len(fps), sorted(set(fps))[:4]))
+    sys.exit(0)
 assert subprocess.run(["git", "-C", "/repo", "status", "--porcelain", "--untracked-files=no"], stdout=subprocess.PIPE, text=True).stdout.strip() == "", "/repo has local edits"
 ev = os.path.join(ROOT, "evidence", prop + ".json"); saved = open(ev).read() if os.path.exists(ev) else None   # evidence must describe the unchanged tree
 subprocess.run(["git", "-C", "/repo", "apply", os.path.join(d, "patch.diff")], check=True)
